@@ -10,6 +10,7 @@ import (
 	"net/http"
 	"regexp"
 	"strings"
+	"sync"
 
 	"github.com/rs/zerolog/log"
 )
@@ -224,17 +225,43 @@ func EndpointsToUnmanage(previous, current []*HAProxyEndpointData) []*HAProxyEnd
 	return toRemove
 }
 
+// currentlyManaged holds the expressions of the configuration that was registered last. The
+// un-registration of a previous configuration's endpoints runs a retention period later: by then
+// an endpoint may be managed again (removed and restored by two updates in a row), and must stay.
+var (
+	currentlyManaged      = map[string]struct{}{}
+	currentlyManagedMutex sync.Mutex
+)
+
 func ManageHAProxyEndpoints(haproxyEndpoints *HAProxyEndpointsRequest) error {
 	err := updateHAProxyEndpoints(haproxyEndpoints)
 	if err != nil {
 		return err
 	}
+	managed := make(map[string]struct{}, len(haproxyEndpoints.ManagedEndpoints))
+	for _, endpoint := range haproxyEndpoints.ManagedEndpoints {
+		managed[endpoint.Endpoint] = struct{}{}
+	}
+	currentlyManagedMutex.Lock()
+	currentlyManaged = managed
+	currentlyManagedMutex.Unlock()
 	log.Debug().Msg("✍️  Successfully updated endpoints")
 	return nil
 }
 
+func isCurrentlyManaged(endpoint string) bool {
+	currentlyManagedMutex.Lock()
+	defer currentlyManagedMutex.Unlock()
+	_, found := currentlyManaged[endpoint]
+	return found
+}
+
 func unmanageHAProxyEndpoints(unmanagedEndpoints []*HAProxyEndpointData) error {
 	for _, unmanagedEndpoint := range unmanagedEndpoints {
+		if isCurrentlyManaged(unmanagedEndpoint.Endpoint) {
+			log.Debug().Msgf("endpoint '%v' is managed again, keeping it", unmanagedEndpoint.Endpoint)
+			continue
+		}
 		err := operateEndpoint(unmanagedEndpoint.Endpoint, http.MethodDelete, haproxyManagedEndpointURL)
 		if err != nil {
 			return fmt.Errorf("failed to unmanage endpoint '%v', error: %v",
